@@ -102,6 +102,12 @@ class AutoSerialize:
         return AutoSerialize._array_to_np(AutoSerialize._get_array(parent, key))
 
     @staticmethod
+    def _is_plain_ndarray(parent: zarr.Group, key: str) -> bool:
+        """True for arrays written by _write_ndarray: their bytes must never be tried as a
+        gzip+dill fallback payload (a uint8 array may happen to contain one)."""
+        return bool(AutoSerialize._get_array(parent, key).attrs.get("_ndarray", False))
+
+    @staticmethod
     def _write_ndarray(
         group: zarr.Group,
         name: str,
@@ -118,6 +124,7 @@ class AutoSerialize:
                 name=name, shape=(), dtype=array.dtype, compressors=compressors
             )
             ds[()] = array.item()  # Use () for scalar indexing
+            ds.attrs["_ndarray"] = True  # a plain array, not a dill-fallback payload
         else:
             # Handle empty arrays (any dimension of size 0)
             if any(s == 0 for s in array.shape):
@@ -128,6 +135,7 @@ class AutoSerialize:
                 )
                 # Store the original shape as an attribute for reconstruction
                 ds.attrs["_original_shape"] = array.shape
+                ds.attrs["_ndarray"] = True  # a plain array, not a dill-fallback payload
                 # No need to assign data since it's empty
                 return
             # Ensure the shape is valid (no negative dimensions)
@@ -137,6 +145,7 @@ class AutoSerialize:
                 name=name, shape=array.shape, dtype=array.dtype, compressors=compressors
             )
             ds[:] = array
+            ds.attrs["_ndarray"] = True  # a plain array, not a dill-fallback payload
 
     @staticmethod
     def _write_bytes(
@@ -584,6 +593,8 @@ class AutoSerialize:
                 continue
             arr_np = AutoSerialize._read_array_np(group, ds)
             try:
+                if AutoSerialize._is_plain_ndarray(group, ds):
+                    raise ValueError("plain ndarray")
                 payload = gzip.decompress(arr_np.tobytes())
                 v = dill.loads(payload)
             except Exception:
@@ -889,6 +900,8 @@ class AutoSerialize:
             # Values saved through the dill fallback are gzip-compressed byte arrays
             # (same decoding as for attributes in _recursive_load)
             try:
+                if AutoSerialize._is_plain_ndarray(group, key):
+                    return arr
                 return dill.loads(gzip.decompress(arr.tobytes()))
             except Exception:
                 return arr
